@@ -129,8 +129,8 @@ impl Campaign for C16 {
             4 => (fixed(16), bytes(880), u32b(), sigs(), u32b(), u32b(), u32b(), 0u8..2, err())
                 .prop_map(|(locator, blob, delay, user_sig, start_block, slots, expiry, signer, err)| Case::Add { locator, blob, delay, user_sig, start_block, slots, expiry, signer, err }),
             2 => (fixed(16), sigs(), bytes(600), u32b(), 0i32..3, err()).prop_map(|(locator, sig, reply_blob, reply_delay, status, err)| Case::GetAppt { locator, sig, reply_blob, reply_delay, status, err }),
-            2 => (fixed(16), sigs(), fixed(32), fixed(32), bytes(600), err()).prop_map(|(locator, sig, dispute, penalty, raw, err)| Case::GetTracker { locator, sig, dispute, penalty, raw, err }),
-            2 => (sigs(), u32b(), u32b(), proptest::collection::vec(fixed(16), 0..50), err()).prop_map(|(sig, slots, expiry, locators, err)| Case::SubInfo { sig, slots, expiry, locators, err }),
+            2 => (fixed(16), sigs(), prop_oneof![3 => fixed(32), 1 => bytes(40)], prop_oneof![3 => fixed(32), 1 => bytes(40)], bytes(600), err()).prop_map(|(locator, sig, dispute, penalty, raw, err)| Case::GetTracker { locator, sig, dispute, penalty, raw, err }),
+            2 => (sigs(), u32b(), u32b(), proptest::collection::vec(prop_oneof![6 => fixed(16), 1 => bytes(24)], 0..50), err()).prop_map(|(sig, slots, expiry, locators, err)| Case::SubInfo { sig, slots, expiry, locators, err }),
             2 => (fixed(16), bytes(300), u32b(), any::<u8>(), u32b(), u32b(), u32b(), "[ybndrfg8ejkmcpqxot1uwisza345h769]{0,104}".prop_map(|s| s), 0u8..6)
                 .prop_map(|(locator, blob, delay, shift, slots, start, expiry, user_sig, which)| Case::Layout { locator, blob, delay, shift, slots, start, expiry, user_sig, which }),
         ]
